@@ -30,7 +30,7 @@ CLAIMED = {
     "C12": dict(
         category="fault_enumeration",
         text=("Per generated template or multi-file template set (85% laid out over several lines with non-ASCII text before "
-              "expressions): every probe site reached in the fault-free run x each of 30 exception classes (builtin, "
+              "expressions): every probe site reached in the fault-free run x each of 32 exception classes (builtin, "
               "custom with extra constructor arguments, custom __str__, RecursionError, four outside Exception) is made "
               "to fail in its own render - enumerated, not sampled - plus two-fault plans with an earlier recovered "
               "failure. Oracle on the raised exception: class preserved (+RenderError iff Exception subclass; "
@@ -47,7 +47,7 @@ CLAIMED = {
               "open() failing while the message is built. Errors crossing a nested render() call made by user code (a helper that renders "
               "the case's template, silently or reading str(e) before re-raising), asynchronous KeyboardInterrupt / SystemExit at the "
               "distinct lines of a render (must come out unchanged, never return), exception objects raised again by later renders, "
-              "render arguments that cannot be formatted and a 30-class zoo (incl. __slots__, keyword-only constructors, a refusing "
+              "render arguments that cannot be formatted and a 32-class zoo (incl. __slots__, keyword-only constructors, a refusing "
               "__setattr__) are part of every batch."),
         technique="deterministic fault enumeration at the expression-evaluation seam (every reached site x exception zoo) with a generator-known site table as oracle",
     ),
